@@ -130,6 +130,7 @@ def run(R):
     diag_purity(R, ro, allm, "C18.TOTAL")
     R.require_min("C18.TOTAL", 20)
     diag_robust(R, allm, "C18.TOTAL")
+    common.typed_stack_elements(R, ro, "C18.TOTAL")
     ng = reentrancy_guards(R, allm, "C18.TOTAL")
     R.need(ng >= 1, "idiom: no recursion-guarded text method found (FutureBase.__repr__ had one)")
     # a future refuses to be tested for truth (TypeError from the truth slot in the compiled build): `x or "none"` in a text method
@@ -428,6 +429,28 @@ def diag_purity(R, ro, allm, rule):
             rc = R.res.expr_class(m, recv)
             if not rc or not any(x.is_subclass_of(ro.FutureBase) for x in rc):
                 continue
+            if name == "value":
+                # value() re-raises the future's error - any BaseException a task ended with (a cancelled task carries a GeneratorExit
+                # subclass): the text method asks for the value only when error() is None, or contains BaseException
+                rsrc = q.src(recv)
+                mcfg_ = cfg_of(m)
+                nodes_ = [x for x in mcfg_.nodes if c in kit.node_calls(x)]
+
+                def no_error(nd, rsrc=rsrc):
+                    if nd.kind != "test":
+                        return None
+                    k_, s_, pos_ = q.atom_test(nd.ast)
+                    if k_ == "isnone" and s_ in ("%s.error()" % rsrc, "%s._error" % rsrc):
+                        return "T" if pos_ else "F"
+                    return None
+                from ..cfg import ExcHierarchy as _EH
+                prot_ = any(kit.handler_covers(h_, "BaseException", _EH(R.repo)) and not kit.handler_reraises(h_) for t_ in kit.enclosing_try_handlers(c) for h_ in t_.handlers)
+                okv = prot_ or (bool(nodes_) and bool(kit.guard_edges_exist(mcfg_, no_error)) and kit.path_avoiding_guard(mcfg_, nodes_, no_error, N, dead_ok=True) is None)
+                R.check(okv, rule, "%s:%s:error-free" % (m.qualname, q.src(c)), R.site(m, c),
+                        "%s is asked only of a future without an error" % q.src(c),
+                        "%s.%s calls %s without having tested error(): for a future that ended with an error value() re-raises it - and a handler for Exception "
+                        "does not contain a task cancelled with AsyncTaskCancelledError (a GeneratorExit) or ended by KeyboardInterrupt: printing such a task raises"
+                        % (m.cls.name, m.name, q.src(c)))
             R.check(guarded_by_computed(m, c), rule, "%s:%s" % (m.qualname, q.src(c)), R.site(m, c),
                     "%s is evaluated only for a computed future (printing never starts a computation)" % q.src(c),
                     "%s can be evaluated on an uncomputed future: printing it (a debug dump, an error message) runs the computation - a pending batch is flushed by its own __str__" % q.src(c))
@@ -531,6 +554,17 @@ def filter_rules(R):
             for t in n.targets:
                 if isinstance(t, ast.Name):
                     len_aliases.add(t.id)
+    # the lines that are not part of a boilerplate run come out as they went in: the input list is not rebuilt from converted elements
+    # (inside asynq/debug.py the names str and repr are the module's own truncating converters, not the builtins)
+    for n in q.scope_nodes(ft.node):
+        if isinstance(n, ast.Assign) and any(isinstance(t, ast.Name) and t.id == lst for t in n.targets):
+            v = n.value
+            plain_copy = (isinstance(v, ast.Call) and q.call_name(v) in ("list", "tuple") and len(v.args) == 1 and q.src(v.args[0]) == lst) or \
+                (isinstance(v, ast.Subscript) and q.src(v) == "%s[:]" % lst)
+            R.check(plain_copy, "C18.FILTER", ft.qualname + ":input", R.site(ft, n),
+                    "the input lines are only copied, never converted", "filter_traceback rebuilds its input as `%s`: every line passes through a conversion before it is "
+                    "copied to the output - in this module `str`/`repr` are debug.str/debug.repr, which cut a line at DEBUG_STR_REPR_MAX_LENGTH characters and "
+                    "drop its newline, so foreign lines do not come out untouched" % q.src(v)[:60])
     fors = [n for n in q.scope_nodes(ft.node) if isinstance(n, ast.For) and isinstance(n.target, ast.Tuple) and len(n.target.elts) == 2]
     R.need(len(fors) == 1, "idiom: filter_traceback has no single loop over (pattern, replacement) pairs")
     pfor = fors[0]
